@@ -173,18 +173,25 @@ CFG_MATE_DECN = {
 }
 
 
-def do_cfg(fx, enc, rng=None, mate=False):
+def mk_cfg(fx, enc, rng=None, mate=False):
+    """Constructing a sampled configuration already draws (the constructor samples the first xconfig)."""
     if mate:
         cls = getattr(importlib.import_module(f"pybrops.breed.prot.sel.cfg.{enc}MateSelectionConfiguration"),
                       f"{enc}MateSelectionConfiguration")
-        cfg = cls(2, 2, 1, 2, fx.pg(), CFG_MATE_DECN[enc](), XMAP.copy(), rng)
-    else:
-        cls = getattr(importlib.import_module(f"pybrops.breed.prot.sel.cfg.{enc}SelectionConfiguration"),
-                      f"{enc}SelectionConfiguration")
-        cfg = cls(2, 2, 1, 2, fx.pg(), CFG_DECN[enc](), rng)
+        return cls(2, 2, 1, 2, fx.pg(), CFG_MATE_DECN[enc](), XMAP.copy(), rng)
+    cls = getattr(importlib.import_module(f"pybrops.breed.prot.sel.cfg.{enc}SelectionConfiguration"),
+                  f"{enc}SelectionConfiguration")
+    return cls(2, 2, 1, 2, fx.pg(), CFG_DECN[enc](), rng)
+
+
+def use_cfg(fx, cfg):
     first = cfg.xconfig.copy()
     second = cfg.sample_xconfig(True)
     return (first, numpy.array(second))
+
+
+def do_cfg(fx, enc, rng=None, mate=False):
+    return use_cfg(fx, mk_cfg(fx, enc, rng, mate))
 
 
 PYMOO_ALGOS = {
@@ -493,12 +500,60 @@ def discover():
     return out, bad
 
 
+COPY_KINDS = ("copy.copy", "copy.deepcopy", ".copy", ".deepcopy")
+
+
+def _lib_defines(cls, name):
+    """True iff a pybrops class in the MRO gives a concrete (non-abstract) definition of `name`."""
+    for k in cls.__mro__:
+        if name in vars(k) and getattr(k, "__module__", "").startswith("pybrops"):
+            return not getattr(vars(k)[name], "__isabstractmethod__", False)
+    return False
+
+
+def copy_kinds(o):
+    """The ways of copying a stochastic component for which sharing of the generator is demanded: copy.copy always
+    (a shallow copy shares every attribute), and each copy operation the *library itself defines* for the class
+    (__deepcopy__ -> copy.deepcopy, copy(), deepcopy()).  A generic copy.deepcopy of a class without its own
+    __deepcopy__ clones the generator by python's default semantics; the library promises nothing there and it is
+    only recorded (flag copy-unspecified:...)."""
+    cls = type(o)
+    kinds = ["copy.copy"]
+    if _lib_defines(cls, "__deepcopy__"):
+        kinds.append("copy.deepcopy")
+    if _lib_defines(cls, "copy"):
+        kinds.append(".copy")
+    if _lib_defines(cls, "deepcopy"):
+        kinds.append(".deepcopy")
+    return kinds
+
+
+def do_copy(o, kind):
+    import copy
+    if kind == "copy.copy":
+        return copy.copy(o)
+    if kind == "copy.deepcopy":
+        return copy.deepcopy(o)
+    if kind == ".copy":
+        return o.copy()
+    return o.deepcopy()
+
+
+def _objrecipe(site, build, call):
+    """Recipe of a component that is an object owning a stochastic method: build(fx, rng) -> object, call(fx, o)."""
+    def fn(fx, rng):
+        return call(fx, build(fx, rng))
+    fn.build, fn.call = build, call
+    return site, fn
+
+
 def recipe(fullname, obj):
-    """-> (site, fn(fx, rng) -> output) for a discovered component, or (None, reason) when there is no recipe."""
+    """-> (site, fn(fx, rng) -> output) for a discovered component, or (None, reason) when there is no recipe.
+    Object-based components additionally carry fn.build / fn.call (used for the copy variants)."""
     short = fullname.rsplit(".", 1)[1]
     mod = fullname.rsplit(".", 1)[0]
     if mod.startswith("pybrops.breed.prot.mate.") and short in MATE:
-        return short + ".mate", lambda fx, rng: do_mate(fx, obj(rng=rng), short)
+        return _objrecipe(short + ".mate", lambda fx, rng: obj(rng=rng), lambda fx, o: do_mate(fx, o, short))
     if mod in ("pybrops.breed.prot.mate.util", "pybrops.core.util.mate"):
         def fn(fx, rng):
             pg = fx.pg()
@@ -508,13 +563,13 @@ def recipe(fullname, obj):
             return obj(pg.mat, pg.mat, sel, sel[::-1].copy(), pg.vrnt_xoprob, rng)
         return short, fn
     if short == "G_E_Phenotyping":
-        return "G_E_Phenotyping.phenotype", lambda fx, rng: mk_pheno(fx, rng).phenotype(fx.pg())
+        return _objrecipe("G_E_Phenotyping.phenotype", mk_pheno, lambda fx, o: o.phenotype(fx.pg()))
     if mod.startswith("pybrops.breed.prot.sel.cfg."):
         for enc in ("Subset", "Real", "Integer", "Binary"):
             if short == f"{enc}SelectionConfiguration":
-                return short + ".sample_xconfig", (lambda e: lambda fx, rng: do_cfg(fx, e, rng))(enc)
+                return _objrecipe(short + ".sample_xconfig", (lambda e: lambda fx, rng: mk_cfg(fx, e, rng))(enc), use_cfg)
             if short == f"{enc}MateSelectionConfiguration":
-                return short + ".sample_xconfig", (lambda e: lambda fx, rng: do_cfg(fx, e, rng, True))(enc)
+                return _objrecipe(short + ".sample_xconfig", (lambda e: lambda fx, rng: mk_cfg(fx, e, rng, True))(enc), use_cfg)
     if mod == "pybrops.core.random.sampling":
         if short == "stochastic_universal_sampling":
             return short, lambda fx, rng: obj(numpy.arange(5), numpy.array([0.1, 0.4, 0.3, 0.15, 0.05]), (2, 3), rng)
@@ -535,18 +590,20 @@ def recipe(fullname, obj):
     if mod.startswith("pybrops.opt.algo."):
         if short in PYMOO_ALGOS:
             _, enc, nobj = PYMOO_ALGOS[short]
-            return short + ".minimize", lambda fx, rng: do_minimize(fx, mk_algo(short, rng), enc, nobj)
+            return _objrecipe(short + ".minimize", lambda fx, rng: mk_algo(short, rng), lambda fx, o: do_minimize(fx, o, enc, nobj))
         if short == "SteepestDescentSubsetHillClimber":
-            return short + ".minimize", lambda fx, rng: do_minimize(fx, obj(rng=rng), "Subset", 1)
+            return _objrecipe(short + ".minimize", lambda fx, rng: obj(rng=rng), lambda fx, o: do_minimize(fx, o, "Subset", 1))
         if short.startswith("Unconstrained"):
             multi = "NSGA2" in short
 
-            def fn(fx, rng):
-                o = obj(ngen=3, mu=4, lamb=4, rng=rng) if "Genetic" in short else obj(rng=rng)
+            def build(fx, rng):
+                return obj(ngen=3, mu=4, lamb=4, rng=rng) if "Genetic" in short else obj(rng=rng)
+
+            def call(fx, o):
                 r = o.optimize(_objfn2 if multi else _objfn1, 3, numpy.arange(10),
                                numpy.array([1.0, 1.0]) if multi else numpy.array([1.0]))
                 return (numpy.asarray(r[0], dtype=float), numpy.asarray(r[1]))
-            return short + ".optimize", fn
+            return _objrecipe(short + ".optimize", build, call)
     if mod.startswith("pybrops.breed.prot.sel.") and inspect.isclass(obj) and sel_encoding(short):
         def prepare(fx):
             # find out (outside the measured call) with which number of objectives the generic fixture drives
@@ -564,10 +621,9 @@ def recipe(fullname, obj):
             if _SEL_NOBJ[short] is None:
                 raise NoRecipe(_SEL_ERR.get(short, "?"))
 
-        def fn(fx, rng):
-            return do_select(fx, mk_selprot(fx, obj, _SEL_NOBJ[short], rng))
+        site, fn = _objrecipe(f"{short}.select", lambda fx, rng: mk_selprot(fx, obj, _SEL_NOBJ[short], rng), do_select)
         fn.prepare = prepare
-        return f"{short}.select", fn
+        return site, fn
     return None, "no recipe (constructor needs a bespoke fixture)"
 
 
